@@ -377,6 +377,23 @@ class Check(Property):
             v.append(f"C19 notation {s!r}: evaluates to {mag.nominal_value} +/- {mag.std_dev}, it denotes {float(nom)} +/- {float(std)}")
         if unit and (not hasattr(r, "units") or str(r.units) != "meter"):
             v.append(f"C19 notation {s!r}: units {getattr(r, 'units', None)}")
+        if not unit and not ex and not sg:
+            # the notation inside a larger expression denotes the same measurement: followed by a unit whose name starts with
+            # "e" and a sum (no exponent there), raised to a power, multiplied
+            fn, fs = float(nom), float(std)
+            for expr, wn, ws, wu in ((s + "eV + 3 eV", fn + 3, fs, "electron_volt"), (s + " erg - 2 erg", fn - 2, fs, "erg"),
+                                     (s + "**2", fn ** 2, 2 * abs(fn) * fs, None), (s + " ** 2", fn ** 2, 2 * abs(fn) * fs, None),
+                                     ("2 * " + s, 2 * fn, 2 * fs, None), (s + " m ** 2", fn, fs, "meter ** 2")):
+                try:
+                    r2 = u.parse_expression(expr)
+                except Exception as exc:  # noqa: BLE001
+                    v.append(f"C19 notation in an expression {expr!r}: raised {type(exc).__name__}: {exc}")
+                    continue
+                mg = getattr(r2, "magnitude", r2)
+                if not hasattr(mg, "nominal_value") or not (close(mg.nominal_value, wn) and close(mg.std_dev, ws)):
+                    v.append(f"C19 notation in an expression {expr!r}: evaluates to {r2!r}, it denotes {wn} +/- {ws} {wu or ''}")
+                elif wu and str(getattr(r2, "units", "")) != wu:
+                    v.append(f"C19 notation in an expression {expr!r}: units {getattr(r2, 'units', None)}, expected {wu}")
         return v
 
     def oracle_arith(self, u, c):
